@@ -175,3 +175,112 @@ Proof.
   vm_compute. discriminate.
 Qed.
 Print Assumptions C01_tiny_rhs_trivial_exit_refuted.
+
+(* =====================================================================================
+   LGMRES, BiCGStab(L), IDR(s): the three remaining solvers (models: Krylov.v lgmres / bicgstabl,
+   KrylovIdrs.v idrs; proofs: KrylovProofs2*.v).  All eight solvers are tied digit for digit to the
+   C++ by tools/props/C01.py. *)
+From Amgcl Require Import KrylovIdrs KrylovProofs2 KrylovProofs2Bl KrylovProofs2Idrs.
+
+(* ---- A3 (any S): iteration bounds and fuel ---- *)
+Theorem C01_lgmres_iterations_bounded (S : Scalar) (A P : vec S -> vec S) prm f x0 st r w :
+  lgmres A P prm f x0 st = (KOk r, w) -> k_it r <= p_maxiter prm /\ k_oof r = false.
+Proof. exact (lgmres_trivial_bounds A P prm f x0 st r w). Qed.
+Print Assumptions C01_lgmres_iterations_bounded.
+
+(* BiCGStab(L) advances in steps of L: at most maxiter + L - 1 (L >= 1 is checked by the constructor) *)
+Theorem C01_bicgstabl_iterations_bounded (S : Scalar) (A P : vec S -> vec S) prm f x0 junk r w :
+  1 <= p_L prm ->
+  bicgstabl A P prm f x0 junk = (KOk r, w) -> k_it r <= p_maxiter prm + p_L prm - 1 /\ k_oof r = false.
+Proof. exact (bicgstabl_iters_bounded A P prm f x0 junk r w). Qed.
+Print Assumptions C01_bicgstabl_iterations_bounded.
+
+(* IDR(s): for every shadow space Sh, every s (also s = 0), smoothing / replacement on or off *)
+Theorem C01_idrs_iterations_bounded (S : Scalar) (A P : vec S -> vec S) Sh prm f x0 junk r w :
+  idrs A P Sh prm f x0 junk = (KOk r, w) -> k_it r <= p_maxiter (ip_k prm) /\ k_oof r = false.
+Proof. exact (idrs_iters_le_maxiter A P Sh prm f x0 junk r w). Qed.
+Print Assumptions C01_idrs_iterations_bounded.
+
+(* ---- A1 (ring): the carried residual is the residual of the returned iterate ----
+   BiCGStab(L): R[0] = B - K X at every loop head, after the BiCG part, the polynomial part (for ANY
+   coefficients the QR solve delivers) and both accurate-update branches, with B = P(f - A x)
+   (resp. f - A x) and K = P A (resp. A P); at the end x += X (resp. P X).  [bl_sized n junk]: the
+   vectors X and U[0], which the code CLEARS instead of assigning, were allocated with length n. *)
+Theorem C01_bicgstabl_residual_truthful (S : Scalar) (Srt : Sring S) (Seqb : seqb_spec S) n (A P : vec S -> vec S)
+  (A_len : forall v, length v = n -> length (A v) = n) (P_len : forall v, length v = n -> length (P v) = n)
+  (A_lin : linear_on n A) (P_lin : linear_on n P) left prm f x0 junk nr r w :
+  p_left prm = left -> length f = n -> length x0 = n -> bl_sized n junk ->
+  k_prologue norm_a prm f = Go nr ->
+  bicgstabl A P prm f x0 junk = (KOk r, w) ->
+  k_res r = true_res norm_a A P left f (k_x r) / nr.
+Proof. exact (bicgstabl_residual_truthful Srt Seqb n A P A_len P_len A_lin P_lin left prm f x0 junk nr r w). Qed.
+Print Assumptions C01_bicgstabl_residual_truthful.
+
+(* IDR(s): r = f - A x, G[i] = A U[i] and, with smoothing, r_s = f - A x_s at every loop head and
+   exit (the k loop, the dimension-reduction step with any omega, residual replacement); the
+   preconditioner only needs to preserve lengths.  [id_sized n s junk]: G[i], U[i] (i < s), which
+   the code clears, were allocated with length n. *)
+Theorem C01_idrs_residual_truthful (S : Scalar) (Srt : Sring S) (Seqb : seqb_spec S) n (A P : vec S -> vec S)
+  (A_len : forall v, length v = n -> length (A v) = n) (P_len : forall v, length v = n -> length (P v) = n)
+  (A_lin : linear_on n A) Sh prm f x0 junk nr r w :
+  length f = n -> length x0 = n -> id_sized n (ip_s prm) junk ->
+  k_prologue norm_b (ip_k prm) f = Go nr ->
+  idrs A P Sh prm f x0 junk = (KOk r, w) ->
+  k_res r = true_res norm_b A P false f (k_x r) / nr.
+Proof. exact (idrs_residual_truthful Srt Seqb n A P A_len P_len A_lin Sh prm f x0 junk nr r w). Qed.
+Print Assumptions C01_idrs_residual_truthful.
+
+(* closed instances at the exact rationals *)
+Theorem C01_bicgstabl_residual_truthful_Qc n (A P : vec QcS -> vec QcS) left prm f x0 junk nr r w :
+  (forall v, length v = n -> length (A v) = n) -> (forall v, length v = n -> length (P v) = n) ->
+  linear_on n A -> linear_on n P ->
+  p_left prm = left -> length f = n -> length x0 = n -> bl_sized n junk ->
+  k_prologue norm_a prm f = Go nr ->
+  bicgstabl A P prm f x0 junk = (KOk r, w) ->
+  k_res r = true_res norm_a A P left f (k_x r) / nr.
+Proof. intros HA HP LA LP. exact (C01_bicgstabl_residual_truthful QcS QcS_ring QcS_eqb n A P HA HP LA LP left prm f x0 junk nr r w). Qed.
+Print Assumptions C01_bicgstabl_residual_truthful_Qc.
+
+Theorem C01_idrs_residual_truthful_Qc n (A P : vec QcS -> vec QcS) Sh prm f x0 junk nr r w :
+  (forall v, length v = n -> length (A v) = n) -> (forall v, length v = n -> length (P v) = n) ->
+  linear_on n A ->
+  length f = n -> length x0 = n -> id_sized n (ip_s prm) junk ->
+  k_prologue norm_b (ip_k prm) f = Go nr ->
+  idrs A P Sh prm f x0 junk = (KOk r, w) ->
+  k_res r = true_res norm_b A P false f (k_x r) / nr.
+Proof. intros HA HP LA. exact (C01_idrs_residual_truthful QcS QcS_ring QcS_eqb n A P HA HP LA Sh prm f x0 junk nr r w). Qed.
+Print Assumptions C01_idrs_residual_truthful_Qc.
+
+(* the hypotheses are met by concrete runs that really iterate: IDR(1) with smoothing on
+   diag(2, 3) x = (2, 3), two steps; BiCGStab(2) with the accurate update on the 1D Laplacian (n = 3),
+   3 steps (early exit inside the second sweep); and the bound maxiter + L - 1 is attained:
+   maxiter = 1, L = 2 makes 2 iterations *)
+Definition c01_dA : vec QcS -> vec QcS := diag_op [qc 2 1; qc 3 1].
+Definition c01_A3 : vec QcS -> vec QcS :=
+  mat_op (Crs.mkCrs 3 [[(0, qc 2 1); (1, qc (-1) 1)]; [(0, qc (-1) 1); (1, qc 2 1); (2, qc (-1) 1)]; [(1, qc (-1) 1); (2, qc 2 1)]]).
+Definition c01_kprm (maxiter : nat) (tol : QcS) : @kprm QcS :=
+  mkPrm maxiter tol (qc 0 1) false false 2 false (qc 1 1) 0 true 2 (qc 1 2) true.
+Definition c01_iprm : @iprm QcS := mkIPrm (c01_kprm 2 (qc 0 1)) 1 (qc 7 10) true false.
+Definition c01_jv (n : nat) : vec QcS := repeat (qc 5 1) n.
+Definition c01_idws : @id_ws QcS :=
+  mkIdWs (fun _ _ => qc 5 1) (fun _ => qc 5 1) (fun _ => qc 5 1) (c01_jv 2) (c01_jv 2) (c01_jv 2) (c01_jv 2) (c01_jv 2)
+         (fun _ => c01_jv 2) (fun _ => c01_jv 2).
+Definition c01_blws : @bl_ws QcS :=
+  mkBlWs (c01_jv 3) (c01_jv 3) (c01_jv 3) (c01_jv 3) (fun _ => c01_jv 3) (fun _ => c01_jv 3).
+Example C01_idrs_hypotheses_satisfiable :
+  id_sized 2 (ip_s c01_iprm) c01_idws /\
+  match idrs c01_dA (fun v => v) (fun _ => [qc 1 1; qc 0 1]) c01_iprm [qc 2 1; qc 3 1] [qc 0 1; qc 0 1] c01_idws with
+  | (KOk r, _) => k_it r = 2 | _ => False
+  end.
+Proof. split; [intros i Hi; split; reflexivity | vm_compute; reflexivity]. Qed.
+Example C01_bicgstabl_hypotheses_satisfiable :
+  bl_sized 3 c01_blws /\
+  match bicgstabl c01_A3 (fun v => v) (c01_kprm 4 (qc 1 1024)) [qc 1 1; qc 0 1; qc 0 1] [qc 0 1; qc 0 1; qc 0 1] c01_blws with
+  | (KOk r, _) => k_it r = 3 | _ => False
+  end.
+Proof. split; [split; reflexivity | vm_compute; reflexivity]. Qed.
+Example C01_bicgstabl_bound_attained :
+  match bicgstabl c01_A3 (fun v => v) (c01_kprm 1 (qc 0 1)) [qc 1 1; qc 0 1; qc 0 1] [qc 0 1; qc 0 1; qc 0 1] c01_blws with
+  | (KOk r, _) => k_it r = 2 /\ p_maxiter (c01_kprm 1 (qc 0 1)) = 1 | _ => False
+  end.
+Proof. vm_compute. split; reflexivity. Qed.
